@@ -64,7 +64,7 @@ class C18(SimpleProperty):
             "answers are compared as sets with the model and with expand_all(compress(u)) of the real converter; plus "
             "30 Accept headers built from the RFC 7231 grammar (supported, synonym and unsupported media types, q-values "
             "with up to 3 decimals, optional whitespace around ',' and ';') for handle_header. Non-trivial = a URI "
-            "whose record has at least two URI prefixes. URIs include non-ASCII IRIs and percent-escapes; 40 % of the graphs / apps are built from a converter that is still being curated and answer every query once before it acquires the remaining records and synonyms; q-values include 0, media ranges (application/*, text/*) occur, and 8 headers per case are also sent through Flask GET / POST and FastAPI GET, whose Content-Type must be handle_header's answer.")
+            "whose record has at least two URI prefixes. URIs include non-ASCII IRIs and percent-escapes; 40 % of the graphs / apps are built from a converter that is still being curated and answer every query once before it acquires the remaining records and synonyms; q-values include 0, media ranges (application/*, text/*) occur, and 8 headers per case are also sent through Flask GET / POST and FastAPI GET, whose Content-Type must be handle_header's answer. The predicate is also written with a graph-bound prefix (no PREFIX declaration) and through initNs, after a second graph over the same converter with the bindings swapped answered the same texts; 30 % of the cases first run a second mapping service with regrouped URI prefixes; URI prefixes include U+00A0 / U+3000 / U+2028; nested URI prefixes of different records are asked about shorter-then-longer.")
     assumptions = ["rdflib's SPARQL parser / evaluator and the VALUES re-ordering are exercised, not modelled",
                    "FastAPI POST cannot run in this sandbox (python-multipart is not installed and not in the wheelhouse); a stub "
                    "module lets the router be built so that FastAPI GET is exercised; FastAPI POST is not covered",
@@ -75,9 +75,14 @@ class C18(SimpleProperty):
 
     def gen(self, rng, tier):
         bases = ["http://a.example/", "http://a.example/x_", "https://b.example/id/", "http://c.example/c#", "urn:d:",
-                 "http://ü.example/日本/", "https://de.example/wiki/Ü"]
+                 "http://ü.example/日本/", "https://de.example/wiki/Ü",
+                 # characters of the Unicode White_Space class other than the ASCII space are ordinary IRI characters
+                 "http://nbsp.example/a\u00a0b/", "http://wide.example/\u3000/x\u2028"]
         n = rng.randint(1, 3)
         uris = rng.sample(bases, min(len(bases), n + rng.randint(0, 2)))
+        if n >= 2 and rng.random() < 0.35:
+            uris = ["http://a.example/", "http://a.example/x_"] + [u for u in uris if not u.startswith("http://a.example/")][:n]
+            rng.shuffle(uris)
         groups = gen.deal(rng, uris, n)
         recs = [rec(f"p{k}", g[0], [f"s{k}"] if rng.random() < 0.5 else [], g[1:]) for k, g in enumerate(groups)]
         qs = []
@@ -93,7 +98,17 @@ class C18(SimpleProperty):
                 qs.append(rng.choice(names) + ":" + (ident or "x"))
             else:
                 qs.append("http://unknown.example/" + ident)
+        nested = [(a, b) for a in allu for b in allu if a != b and b.startswith(a)
+                  and not any(a in [uncps(r_["u"])] + [uncps(x) for x in r_["us"]] and b in [uncps(r_["u"])] + [uncps(x) for x in r_["us"]]
+                              for r_ in recs)]
+        if nested and rng.random() < 0.6:
+            # nested URI prefixes owned by different records: a URI only the shorter one matches is asked about immediately
+            # before a URI of the longer one (anything remembered from the previous URI must not decide the next one)
+            a, b = rng.choice(nested)
+            qs = [a + "q1", b + "1"] + qs[:2]
         case = {"records": recs, "uris": qs, "hseed": rng.randrange(10 ** 9)}
+        if rng.random() < 0.3:
+            case["decoy"] = True
         if rng.random() < 0.4:
             # the graph and the apps are built from a converter that is still being curated: they answer every query
             # once, then the converter acquires the remaining records and synonyms
@@ -112,6 +127,21 @@ class C18(SimpleProperty):
 
         _stub_multipart()
         hist = case.get("hist")
+        if case.get("decoy") and len(case["records"]) > 1:
+            # another mapping service lives in the same process: the same URI prefixes, grouped differently (every
+            # record keeps its names and takes the next record's URI prefixes); it answers every query first
+            n = len(case["records"])
+            rot = [common.dec_record(dict(r, u=case["records"][(i + 1) % n]["u"], us=case["records"][(i + 1) % n]["us"]))
+                   for i, r in enumerate(case["records"])]
+            dconv = Converter(rot)
+            dgraph = MappingServiceGraph(converter=dconv)
+            dproc = MappingServiceSPARQLProcessor(graph=dgraph)
+            dfl = get_flask_mapping_app(dconv).test_client()
+            for u in case["uris"]:
+                for direction in ("subject", "object"):
+                    q = sparql(u, direction, "inside")
+                    list(dgraph.query(q, processor=dproc))
+                    dfl.get("/sparql", query_string={"query": q}, headers={"accept": "application/json"})
         conv = Converter([common.dec_record(r) for r in (hist["first"] if hist else case["records"])])
         graph = MappingServiceGraph(converter=conv)
         proc = MappingServiceSPARQLProcessor(graph=graph)
@@ -143,10 +173,33 @@ class C18(SimpleProperty):
                         fa.get("/sparql", params={"query": q}, headers={"accept": "application/json"})
             for kind, r in hist["later"]:
                 conv.add_record(common.dec_record(r), merge=(kind == "merge"))
+        # the predicate written with a prefix that the *graph* binds (no PREFIX declaration in the text): the service graph
+        # binds m: to owl: and m2: to some other vocabulary; a second service graph over the same converter binds them the other
+        # way round and is asked the same texts first.  What a prefixed name means is decided per graph and per call.
+        OTHER = rdflib.Namespace("http://other.example/vocabulary#")
+        graph.bind("m", rdflib.OWL, override=True, replace=True)
+        graph.bind("m2", OTHER, override=True, replace=True)
+        g2 = MappingServiceGraph(converter=conv)
+        g2.bind("m", OTHER, override=True, replace=True)
+        g2.bind("m2", rdflib.OWL, override=True, replace=True)
+        p2 = MappingServiceSPARQLProcessor(graph=g2)
+
+        def bound_text(u, direction, pfx):
+            known = "?s" if direction == "subject" else "?o"
+            return f"SELECT DISTINCT ?s ?o WHERE {{ VALUES {known} {{ <{u}> }} ?s {pfx}:sameAs ?o . }}"
+
         for u in case["uris"]:
             c = conv.compress(u)
             out["expand_all"].append(None if c is None else list(conv.expand_all(c) or []))
             per = {}
+            for direction, other in (("subject", "o"), ("object", "s")):
+                tm, tm2 = bound_text(u, direction, "m"), bound_text(u, direction, "m2")
+                per[f"otherpred-swapped-bindings/{direction}"] = rows(g2.query(tm, processor=p2), other)
+                per[f"swapped-bindings/{direction}"] = rows(g2.query(tm2, processor=p2), other)
+                per[f"graph-bound-prefix/{direction}"] = rows(graph.query(tm, processor=proc), other)
+                per[f"otherpred-graph-bound-prefix/{direction}"] = rows(graph.query(tm2, processor=proc), other)
+                per[f"initNs/{direction}"] = rows(graph.query(bound_text(u, direction, "x"), processor=proc, initNs={"x": rdflib.OWL}), other)
+                per[f"otherpred-initNs/{direction}"] = rows(graph.query(bound_text(u, direction, "x"), processor=proc, initNs={"x": OTHER}), other)
             for direction, other in (("subject", "o"), ("object", "s")):
                 for placement in ("inside", "after"):
                     q = sparql(u, direction, placement)
@@ -268,7 +321,7 @@ class C18(SimpleProperty):
         return fails
 
     def tags(self, case, impl):
-        out = []
+        out = ["second-service-in-process"] if case.get("decoy") else []
         for ea in impl["expand_all"]:
             out.append("answers=" + ("unrecognised" if ea is None else str(min(len(ea), 3))))
         out.append("fastapi=" + ("unavailable" if "fastapi_error" in impl else "get-only"))
@@ -280,11 +333,14 @@ class C18(SimpleProperty):
         return any(ea is not None and len(ea) >= 2 for ea in impl["expand_all"])
 
     def evaluations(self, case):
-        return len(case["uris"]) * 18 + 32
+        return len(case["uris"]) * 30 + 32
 
     def readable(self, case, impl):
         recs = "; ".join(common.show_record(r) for r in case["records"])
         out = [f"Converter([{recs}])"]
+        if case.get("decoy") and len(case["records"]) > 1:
+            out.insert(0, "(first, in the same process: a second mapping service -- every record keeps its names and takes the next "
+                          "record's URI prefixes -- answered the same queries)")
         if case.get("hist"):
             out.append("reached by: Converter([" + "; ".join(common.show_record(r) for r in case["hist"]["first"]) + "]), graph and apps "
                        "built and every query asked once, then " + ", ".join(
